@@ -24,6 +24,9 @@ drivers (Packet.unpack_impl / pack_impl and the two generated-code templates):
 
 Round 4: (R7-one-entry-per-level) only the drivers create a PacketError; every append goes
 through the collision guards of insert.
+
+Round 5: a class-level fields_stack filled in place; try-else is outside the handlers; narrower
+handlers before the catch-all in the drivers.
 """
 import ast
 import re
